@@ -3,11 +3,11 @@ import os
 import re
 
 from runner import PropBase
-from vlib import Rng
+from vlib import Rng, REPO
 
 U32 = (1 << 32) - 1
 U64 = (1 << 64) - 1
-ERR_DIR = "/repo/minidump-common/src/errors"
+ERR_DIR = os.path.join(REPO, "minidump-common/src/errors")      # the checkout under test
 
 # enumeration ids shared with coq/C14/Model.v
 ENUM_IDS = {
@@ -38,15 +38,15 @@ def load_enums():
         s = open(os.path.join(ERR_DIR, f)).read()
         for m in re.finditer(r"pub enum (\w+)\s*\{(.*?)\n\}", s, re.S):
             body = re.sub(r"//[^\n]*", "", m.group(2))
-            vals = set()
+            vals = {}
             for ent in body.split(","):
                 ent = ent.strip()
                 if not ent:
                     continue
-                mm = re.match(r"^(?:#\[[^\]]*\]\s*)*\w+\s*=\s*(0x[0-9a-fA-F_]+|-?[0-9_]+)(?:u32|i32|u64)?$", ent)
+                mm = re.match(r"^(?:#\[[^\]]*\]\s*)*(\w+)\s*=\s*(0x[0-9a-fA-F_]+|-?[0-9_]+)(?:u32|i32|u64)?$", ent)
                 if not mm:
                     raise RuntimeError("c14: unrecognised enum entry %r in %s::%s" % (ent, f, m.group(1)))
-                vals.add(int(mm.group(1).replace("_", ""), 0))
+                vals.setdefault(int(mm.group(2).replace("_", ""), 0), mm.group(1))
             out[m.group(1)] = vals
     for k in ENUM_IDS:
         if k not in out:
@@ -76,6 +76,35 @@ def os_class(p):
     if p in (0x8201, 0x8203):
         return OS_LINUX
     return OS_OTHER
+
+
+FAMILY_NAMES = ["MacGeneral", "MacBadAccessKern", "MacBadAccessArm", "MacBadAccessPpc", "MacBadAccessX86", "MacBadInstructionArm",
+                "MacBadInstructionPpc", "MacBadInstructionX86", "MacArithmeticArm", "MacArithmeticPpc", "MacArithmeticX86", "MacSoftware",
+                "MacBreakpointArm", "MacBreakpointPpc", "MacBreakpointX86", "MacResource", "MacGuard", "LinuxGeneral", "LinuxSigill",
+                "LinuxSigtrap", "LinuxSigbus", "LinuxSigfpe", "LinuxSigsegv", "LinuxSigsys", "WindowsGeneral", "WindowsWinError",
+                "WindowsWinErrorWithFacility", "WindowsNtStatus", "WindowsAccessViolation", "WindowsInPageError", "WindowsStackBufferOverrun",
+                "WindowsUnknown", "Unknown"]
+
+
+ASCII_WS = b" \t\n\x0c\r"       # u8::is_ascii_whitespace (no vertical tab)
+
+
+def status_pid(text):
+    """the documented reading of a /proc/self/status stream, independent of the model: lines, `key: value`, blanks and one
+    pair of double quotes removed, the first `Pid`, a u32 in decimal (Rust's str::parse: optional `+`), 0 otherwise"""
+    def unq(b):
+        t = b.strip(ASCII_WS)
+        return t[1:-1] if len(t) >= 2 and t[:1] == b'"' and t[-1:] == b'"' else t
+    for line in text.split(b"\n"):
+        i = line.find(b":")
+        if i < 0:
+            continue
+        if unq(line[:i]) == b"Pid":
+            v = unq(line[i + 1:])
+            if re.fullmatch(rb"\+?[0-9]+", v) and int(v) <= U32:
+                return int(v)
+            return 0
+    return 0
 
 
 class Case:
@@ -119,7 +148,8 @@ def parse_case(line):
     ex("L")
     pres = ni()
     l = (ni(), ni())
-    c.status = l if pres else None
+    hx = nx()
+    c.status = (l[0], l[1], b"" if hx == "-" else bytes.fromhex(hx)) if pres else None
     ex("MOD")
     c.mods = [(ni(), ni()) for _ in range(ni())]
     ex("UNL")
@@ -172,7 +202,7 @@ def canon_unl_model(s):
 class C14(PropBase):
     pid = "C14"
     coq_dirs = ["Base", "C08", "C14"]
-    translators = ["c14_names.py"]
+    translators = ["c14_names.py", "c14_reason.py"]
     bins = ["c14"]
     rule = ("a case describes a whole dump: CPU architecture x platform id, 0..32 threads (duplicate / missing ids, context valid / "
             "absent / wrong flags / truncated, own stack or null descriptor), thread names (duplicates, unreadable), exception record "
@@ -303,6 +333,28 @@ class C14(PropBase):
         e["addr"] = rng.choice([0, 0x401000, 0xffffffffc0001000, 0x1_0000_0040, U64, rng.below(1 << 64), rng.below(1 << 32)])
         return e
 
+    def gen_status(self, rng):
+        """(kind, pid, bytes of the /proc/self/status stream): well-formed texts, texts without / with an unparseable Pid, and hostile
+        ones (several Pid lines, quotes, blanks of every ASCII kind, signs, overflow, non-UTF-8 bytes, no final line feed, empty)."""
+        kind = rng.choice([0, 0, 0, 1, 2, 3, 3, 3])
+        pid = rng.choice([0, 4242, U32, rng.below(1 << 32)])
+        if kind == 0:
+            text = "Name:\tx\nUmask:\t0022\nState:\tR (running)\nTgid:\t7\nPid:\t%d\nPPid:\t1\n" % pid
+        elif kind == 1:
+            text = "Name:\tx\nTgid:\t7\nPPid:\t1\n"
+        elif kind == 2:
+            text = "Name:\tx\nPid:\tx%d\nPPid:\t1\n" % pid
+        else:
+            big = rng.choice([U32, U32 + 1, 1 << 40, 10 ** 30])
+            pool = ["Pid:\t%d" % pid, " Pid : %d " % pid, "\"Pid\":\"%d\"" % pid, "Pid:+%d" % pid, "Pid:-1", "Pid:%d" % big, "Pid:%d\r" % pid,
+                    "PPid:\t9", "Pid", "Pid:", ":5", "pid:\t3", "Pid:\t0x10", "Pid: 00042", "Pid:\t12 3", "Pid:\t\xff", "Pid\x0b:5", "\x0bPid:6",
+                    "\"Pid:7", "Pid:\"", "Pid:\"\"", "Pid:\"9", "Pid:\"\"8\"\"", "\x0c Pid\x0c:\x0c%d\x0c" % pid, "Pid::5", "Pid:5:6", "Name:\tPid:3",
+                    "", "Tgid:\t7", "\"\"Pid\"\":4", "Pid:+", "Pid:++1", "Pid:\t1_0", "Pid:\u0661", "P\u0131d:9", "Pid:%s" % ("0" * 30 + "17")]
+            lines = [rng.choice(pool) for _ in range(rng.choice([0, 1, 2, 3, 5]))]
+            text = "\n".join(lines) + ("\n" if lines and rng.chance(1, 2) else "")
+        raw = text.encode("utf-8", "surrogateescape") if "\xff" not in text else text.encode("latin-1", "replace")
+        return (kind, pid, raw)
+
     def make_case(self, rng, dist):
         arch = rng.choice(ARCHS[:10]) if rng.chance(4, 5) else rng.choice(ARCHS)
         platform = rng.choice(PLATFORMS[:6]) if rng.chance(4, 5) else rng.choice(PLATFORMS)
@@ -404,7 +456,7 @@ class C14(PropBase):
                     rng.choice([0, 1262805309, U32, rng.below(1 << 32)]))
         status = None
         if rng.chance(1, 2):
-            status = (rng.choice([0, 0, 0, 1, 2]), rng.choice([0, 4242, U32, rng.below(1 << 32)]))
+            status = self.gen_status(rng)
 
         c = Case()
         c.arch, c.platform, c.time = arch, platform, rng.choice([0, 1262805309, U32, rng.below(1 << 32)])
@@ -424,7 +476,7 @@ class C14(PropBase):
         arch, platform, n = c.arch, c.platform, len(c.threads)
         z = dict(tid=0, code=0, flags=0, np=0, i0=0, i1=0, i2=0, addr=0, ck=0, ip=0, sp=0)
         e = exc or z
-        lk = self.lk_pairs(c)
+        lk = []          # membership is no longer handed to the model: it uses the tables regenerated from the source (gen_lk)
         parts = ["%d %d %d" % (arch, platform, c.time), "T %d" % n]
         parts += ["%d %d %d %d %d %d" % (t["id"], t["ck"], t["ip"], t["sp"], t["sidx"], t["sbase"]) for t in threads]
         parts.append("N %d" % len(names))
@@ -433,7 +485,7 @@ class C14(PropBase):
                                                                e["addr"], e["ck"], e["ip"], e["sp"]))
         parts.append("B %d %d %d %d" % ((1,) + bp if bp else (0, 0, 0, 0)))
         parts.append("M %d %d %d %d %d" % ((1,) + misc if misc else (0, 0, 0, 0, 0)))
-        parts.append("L %d %d %d" % ((1,) + status if status else (0, 0, 0)))
+        parts.append("L 1 %d %d %s" % (status[0], status[1], status[2].hex() or "-") if status else "L 0 0 0 -")
         parts.append("MOD %d" % len(mods))
         parts += ["%d %d" % m for m in mods]
         parts.append("UNL %d" % len(unl))
@@ -598,6 +650,16 @@ class C14(PropBase):
             got = int(d["X"].split(":")[0])
             if got != a:
                 return "crash address %#x, the documented function of the exception record gives %#x" % (got, a)
+            # crash reason: the documented function of (OS, CPU, exception record)
+            fam, payload, text = self.documented_reason(c)
+            gx = d["X"].split(":")
+            got_r = (int(gx[1]), [int(v) for v in gx[2].split("+")] if gx[2] else [])
+            if got_r != (fam, payload):
+                return "crash reason %s%s, the documented function of the exception record (OS %s, code %#x, flags %#x, %d parameters, information[0] %#x) gives %s%s" % (
+                    FAMILY_NAMES[got_r[0]] if 0 <= got_r[0] < 33 else got_r[0], tuple(got_r[1]), os_class(c.platform), e["code"], e["flags"], e["np"], e["i0"],
+                    FAMILY_NAMES[fam], tuple(payload))
+            if text is not None and d["reason"] != text:
+                return "crash reason %s%s is rendered as %r, documented text %r" % (FAMILY_NAMES[fam], tuple(payload), d["reason"], text)
         elif d["X"] != "-":
             return "exception info without an exception record"
         # pid / create time / dump time
@@ -605,7 +667,7 @@ class C14(PropBase):
             pid = c.misc[2] if c.misc[1] & 1 else None
             ct = c.misc[3] if c.misc[1] & 2 else None
         else:
-            pid = (c.status[1] if c.status[0] == 0 else 0) if c.status else None
+            pid = status_pid(c.status[2]) if c.status else None
             ct = None
         if d["P"] != ("-" if pid is None else str(pid)):
             return "process id %s, the streams say %s" % (d["P"], pid)
@@ -645,6 +707,73 @@ class C14(PropBase):
             if not got and cover and not in_loaded:
                 return "frame 0 of thread index %d at %#x has no loaded module and lists no unloaded module although %s cover it" % (i, ip, sorted(cover))
         return None
+
+    def documented_reason(self, c):
+        """(variant index, numeric payload, text or None) of CrashReason::from_exception as DOCUMENTED: the refinements of the three Windows
+        codes with parameters (winnt.h / MSDN: access violation and in-page error carry the access type 0 read / 1 write / 8 execute in
+        information[0], the in-page error its NTSTATUS in information[2]; 0xC0000409 is __fastfail with the FAST_FAIL code in information[0]),
+        the signal / Mach exception numbers and the order exception code -> winerror.h -> ntstatus.h -> facility are pinned HERE; only the
+        membership of a value in an enumeration is read from the checkout's minidump-common/src/errors."""
+        en = load_enums()
+        e = c.exc
+        code, flags, np, i0, i1, i2 = e["code"], e["flags"], e["np"], e["i0"], e["i1"], e["i2"]
+        isin = lambda name, v: v in en[name]
+        hx = lambda v: "0x%08x" % v
+        osc = os_class(c.platform)
+        if osc == OS_WIN:
+            if code == 0xC0000005:
+                if np >= 1 and i0 in (0, 1, 8):
+                    return 28, [i0], "EXCEPTION_ACCESS_VIOLATION_" + {0: "READ", 1: "WRITE", 8: "EXEC"}[i0]
+                return 24, [code], "EXCEPTION_ACCESS_VIOLATION"
+            if code == 0xC0000006:
+                if np >= 3 and i0 in (0, 1, 8):
+                    nt = i2 & U32
+                    return 29, [i0, nt], "EXCEPTION_IN_PAGE_ERROR_%s / %s" % ({0: "READ", 1: "WRITE", 8: "EXEC"}[i0], en["NtStatusWindows"].get(nt, hx(nt)))
+                return 24, [code], "EXCEPTION_IN_PAGE_ERROR"
+            if code == 0xC0000409:
+                if np >= 1:
+                    ff = i0 & U32
+                    return 30, [ff], "EXCEPTION_STACK_BUFFER_OVERRUN / " + en["FastFailCode"].get(ff, hx(ff))
+                return 27, [code], "STATUS_STACK_BUFFER_OVERRUN"
+            if isin("ExceptionCodeWindows", code):
+                return 24, [code], None
+            if isin("WinErrorWindows", code):
+                return 25, [code], en["WinErrorWindows"][code]
+            if isin("NtStatusWindows", code):
+                return 27, [code], en["NtStatusWindows"][code]
+            fac, err = (code & 0x0fff0000) >> 16, code & 0xffff
+            if code & 0xf0000000 and isin("WinErrorFacilityWindows", fac) and isin("WinErrorWindows", err):
+                return 26, [fac, err], "%s / %s" % (en["WinErrorFacilityWindows"][fac], en["WinErrorWindows"][err])
+            return 31, [code], "unknown " + hx(code)
+        if osc == OS_LINUX:
+            if not isin("ExceptionCodeLinux", code):
+                return 32, [code, flags], "unknown %s / %s" % (hx(code), hx(flags))
+            sig = {4: (18, "Sigill"), 5: (19, "Sigtrap"), 7: (20, "Sigbus"), 8: (21, "Sigfpe"), 11: (22, "Sigsegv"), 31: (23, "Sigsys")}.get(code)
+            if sig and isin("ExceptionCodeLinux%sKind" % sig[1], flags):
+                return sig[0], [flags], "SIG%s / %s" % (sig[1][3:].upper(), en["ExceptionCodeLinux%sKind" % sig[1]][flags])
+            return 17, [code, flags], None
+        if osc == OS_MAC:
+            if not isin("ExceptionCodeMac", code):
+                return 32, [code, flags], "unknown %s / %s" % (hx(code), hx(flags))
+            cpu = {12: "Arm", 0x8003: "Arm", 3: "Ppc", 0: "X86", 10: "X86", 9: "X86"}.get(c.arch)
+            kinds = {1: ("BadAccess", 2, "EXC_BAD_ACCESS"), 2: ("BadInstruction", 5, "EXC_BAD_INSTRUCTION"), 3: ("Arithmetic", 8, "EXC_ARITHMETIC"),
+                     6: ("Breakpoint", 12, "EXC_BREAKPOINT")}
+            if code == 1 and isin("ExceptionCodeMacBadAccessKernType", flags):
+                return 1, [flags], "EXC_BAD_ACCESS / " + en["ExceptionCodeMacBadAccessKernType"][flags]
+            if code in kinds and cpu:
+                k, base, nm = kinds[code]
+                name = "ExceptionCodeMac%s%sType" % (k, cpu)
+                if isin(name, flags):
+                    return base + ("Arm", "Ppc", "X86").index(cpu), [flags], "%s / %s" % (nm, en[name][flags])
+            if code == 5 and isin("ExceptionCodeMacSoftwareType", flags):
+                return 11, [flags], "EXC_SOFTWARE / " + en["ExceptionCodeMacSoftwareType"][flags]
+            ty = (flags >> 29) & 7
+            if code == 11 and isin("ExceptionCodeMacResourceType", ty):
+                return 15, [ty, i1, i2], None
+            if code == 12 and isin("ExceptionCodeMacGuardType", ty):
+                return 16, [ty, i1, i2], None
+            return 0, [code, flags], None
+        return 32, [code, flags], "unknown %s / %s" % (hx(code), hx(flags))
 
     def nontrivial(self, case, ans):
         c = parse_case(case)
